@@ -19,6 +19,7 @@ type env struct {
 	Procs    string // GOMAXPROCS
 	Tmp      string // "default" | "other" | "missing"
 	MapOrder string // "" (uninstrumented binary) | ascending | descending | rotated
+	Clock    string // "" (real wall clock) | past (1970) | future (+30 years): value returned by every time.Now()/time.Since in teleport's own packages
 }
 
 func (e env) String() string {
@@ -26,14 +27,18 @@ func (e env) String() string {
 	if m == "" {
 		m = "native"
 	}
-	return fmt.Sprintf("GOMAXPROCS=%s TMPDIR=%s maporder=%s", e.Procs, e.Tmp, m)
+	c := e.Clock
+	if c == "" {
+		c = "real"
+	}
+	return fmt.Sprintf("GOMAXPROCS=%s TMPDIR=%s maporder=%s wallclock=%s", e.Procs, e.Tmp, m, c)
 }
 
 func runOne(bin, scenario string, e env, scratch string) ([]string, error) {
 	cmd := exec.Command(bin, "c14run", scenario)
 	envv := []string{}
 	for _, kv := range os.Environ() {
-		if strings.HasPrefix(kv, "GOMAXPROCS=") || strings.HasPrefix(kv, "TMPDIR=") || strings.HasPrefix(kv, "VERIF_MAPORDER=") {
+		if strings.HasPrefix(kv, "GOMAXPROCS=") || strings.HasPrefix(kv, "TMPDIR=") || strings.HasPrefix(kv, "VERIF_MAPORDER=") || strings.HasPrefix(kv, "VERIF_CLOCK=") {
 			continue
 		}
 		envv = append(envv, kv)
@@ -49,6 +54,9 @@ func runOne(bin, scenario string, e env, scratch string) ([]string, error) {
 	}
 	if e.MapOrder != "" {
 		envv = append(envv, "VERIF_MAPORDER="+e.MapOrder)
+	}
+	if e.Clock != "" {
+		envv = append(envv, "VERIF_CLOCK="+e.Clock)
 	}
 	cmd.Env = envv
 	var out, errb bytes.Buffer
@@ -83,6 +91,7 @@ func Run(r *ev.Run, tier, self, harnessDir, scratch string) (states, transitions
 	var sites struct {
 		Rewritten     []map[string]string `json:"rewritten"`
 		NotControlled []map[string]string `json:"not_controlled"`
+		Clock         []map[string]string `json:"clock"`
 	}
 	bz, _ := os.ReadFile(filepath.Join(ovDir, "sites.json"))
 	json.Unmarshal(bz, &sites)
@@ -92,6 +101,10 @@ func Run(r *ev.Run, tier, self, harnessDir, scratch string) (states, transitions
 	for _, s := range sites.NotControlled {
 		r.Note("map range NOT controlled (only Go's own randomisation across processes): " + s["Pos"])
 	}
+	for _, s := range sites.Clock {
+		r.Note("wall-clock read under explorer control: " + s["Pos"] + " " + s["Kind"])
+	}
+	r.Count("wall_clock_reads_controlled", int64(len(sites.Clock)))
 	r.Count("map_ranges_controlled", int64(len(sites.Rewritten)))
 	r.Count("map_ranges_not_controlled", int64(len(sites.NotControlled)))
 	inst := filepath.Join(scratch, "verifchk-inst")
@@ -108,30 +121,39 @@ func Run(r *ev.Run, tier, self, harnessDir, scratch string) (states, transitions
 	procs := []string{"1", "4", "16"}
 	tmps := []string{"default", "other", "missing"}
 	orders := []string{"", "ascending", "descending", "rotated"}
+	clocks := []string{"", "past", "future"}
 	var envs []env
 	if tier == "thorough" {
 		for _, p := range procs {
 			for _, t := range tmps {
 				for _, o := range orders {
-					envs = append(envs, env{p, t, o})
+					for _, c := range clocks {
+						if o == "" && c != "" {
+							continue // the clock is controlled only in the instrumented binary
+						}
+						envs = append(envs, env{p, t, o, c})
+					}
 				}
 			}
 		}
 	} else {
 		// quick: every value of every dimension against the default of the others, plus the far corner
-		envs = append(envs, env{"16", "default", ""})
+		envs = append(envs, env{"16", "default", "", ""})
 		for _, p := range procs[:2] {
-			envs = append(envs, env{p, "default", ""})
+			envs = append(envs, env{p, "default", "", ""})
 		}
 		for _, t := range tmps[1:] {
-			envs = append(envs, env{"16", t, ""})
+			envs = append(envs, env{"16", t, "", ""})
 		}
 		for _, o := range orders[1:] {
-			envs = append(envs, env{"16", "default", o})
+			envs = append(envs, env{"16", "default", o, ""})
 		}
-		envs = append(envs, env{"1", "missing", "rotated"})
+		for _, c := range clocks[1:] {
+			envs = append(envs, env{"16", "default", "ascending", c})
+		}
+		envs = append(envs, env{"1", "missing", "rotated", "past"})
 	}
-	ref := env{"16", "default", ""}
+	ref := env{"16", "default", "", ""}
 	type job struct {
 		sc string
 		e  env
@@ -153,7 +175,7 @@ func Run(r *ev.Run, tier, self, harnessDir, scratch string) (states, transitions
 			sem <- struct{}{}
 			defer func() { <-sem }()
 			bin := self
-			if j.e.MapOrder != "" {
+			if j.e.MapOrder != "" || j.e.Clock != "" {
 				bin = inst
 			}
 			results[i], errs[i] = runOne(bin, j.sc, j.e, scratch)
@@ -225,6 +247,9 @@ func dimension(e, ref env) string {
 	}
 	if e.MapOrder != ref.MapOrder {
 		d = append(d, "maporder-"+e.MapOrder)
+	}
+	if e.Clock != ref.Clock {
+		d = append(d, "wallclock-"+e.Clock)
 	}
 	if len(d) == 0 {
 		return "the reference environment"
